@@ -147,6 +147,27 @@ def small_family(tag, pred, per_pair, n_triples, extra_seed=None, extra_pairs=0,
     return jobs
 
 
+# ---- an absorbing mapping next to EVERY other mapping shape (trigger x output, normal repeat): what the flush of absorbed keys
+# does to a neighbour that consumes, outputs or shares the absorbed keys
+ABS_MAPPINGS = [M(["C", "A"], ["D"], N, ["C"]), M(["LEFTSHIFT", "A"], ["LEFTSHIFT", "D"], N, ["LEFTSHIFT"]),
+                M(["LEFTCTRL", "LEFTSHIFT", "A"], ["D"], N, ["LEFTCTRL", "LEFTSHIFT"]), M(["LEFTCTRL", "LEFTSHIFT", "A"], ["LEFTSHIFT", "B"], D, ["LEFTSHIFT"])]
+
+
+def abs_cross(tag="absx", every=1):
+    jobs = []
+    c = 0
+    for ai, am in enumerate(ABS_MAPPINGS):
+        for f in FROMS:
+            for t in TOS:
+                if f == am["from"]:
+                    continue
+                c += 1
+                if c % every:
+                    continue
+                jobs.append(job("%s-%d" % (tag, c), [M(f, t), am], rot=c))
+    return jobs
+
+
 # ---- layouts with distinguishable outputs (C03, C04): mapping i ends in its own key
 DIST_KEYS = ["X", "Y", "Z"]
 DIST_MODS = ["RIGHTALT", "RIGHTMETA", "RIGHTCTRL"]
